@@ -65,6 +65,9 @@ def main(argv=None):
         print("no check for property %s: %s" % (pid, e), file=sys.stderr)
         return 2
     chk = report.Check(pid, a.tier, getattr(mod, "LEVEL", LEVELS.get(pid, "other")), seed)
+    if os.environ.get("CMIV_TRACE_AFTER"):
+        import faulthandler
+        faulthandler.dump_traceback_later(int(os.environ["CMIV_TRACE_AFTER"]), exit=True)
     try:
         prog = astdb.Program()
         mod.run(chk, prog)
